@@ -200,7 +200,9 @@ impl SimProvider {
         // 2. availability + dependencies of "cheap" candidates only (what rattler-style providers do)
         for s in solvables.iter().take(3) {
             let avail = cache.are_dependencies_available_for(*s);
-            if avail {
+            // conda-style providers look at the dependencies of the candidates they compare whether or not these are
+            // cheap; here: of every other solvable
+            if avail || s.0 % 2 == 0 {
                 match cache.get_or_cache_dependencies(*s).await {
                     Ok(d) => {
                         let want = self.dependencies_answer(s.0);
